@@ -46,6 +46,10 @@ def check(prog, rep, tier):
                       'collection of input elements (AS_PATH segments and members, communities, cluster list)')
     rep.rule('R06.h', 'well-known community names: every name the decoder renders is accepted back by the encoder '
                       'with the same value')
+    rep.rule('R06.i', 'extended-length threshold: AS_PATH takes the 1-octet length form for at most 255 octets and the '
+                      'extended form from 256 on, so every length can be encoded')
+    rep.rule('R06.j', 'field boundaries: no comparison in the standard attribute codecs splits a range between '
+                      '2**k - 2 and 2**k - 1')
     rep.assumptions += ['equality of decoded and given values for concrete inputs is not decided (round-trip '
                         'equality over the value space is not a static property)']
 
@@ -97,6 +101,36 @@ def check(prog, rep, tier):
         rep.ok('R06.g', 'order-kept', found='%d codec functions scanned' % nf)
     rep.floor('R06.g', 'codec functions', nf, 45)
     common.well_known_names(prog, rep, 'R06.h')
+
+    # ---------------------------------------------------------------- R06.i
+    from .c08 import length_threshold_problems
+    nthr = 0
+    for q in (A + 'aspath.ASPath.construct',):
+        fn = prog.func(q)
+        outs_t = run_construct(prog, fn, depth=2, budget=15000)
+        probs = []
+        seenb = set()
+        for k, v, s in outs_t:
+            if k != 'val' or not isinstance(v, BytesV):
+                continue
+            items = BL.fields(BL.flatten(v))
+            if len(items) >= 3 and items[2][0] == 'field':
+                seenb.add(items[2][1])
+                probs += length_threshold_problems(items[2], s)
+        key = 'length-threshold:%s' % q.split('.')[-2]
+        nthr += 1
+        if probs:
+            rep.bad('R06.i', key, file=fn.file, line=fn.node.lineno, func=q, found=probs[0],
+                    expected='1-octet length for <= 255 octets, extended length from 256', key=key)
+        elif seenb >= {'B', 'H'}:
+            rep.ok('R06.i', key, file=fn.file, line=fn.node.lineno, found='both forms reached')
+        else:
+            rep.undecided('R06.i', key, file=fn.file, line=fn.node.lineno, found='forms reached: %s' % sorted(seenb))
+
+    # ---------------------------------------------------------------- R06.j
+    common.report_boundary_splits(prog, rep, 'R06.j', lambda fn: (
+        fn.module.name.startswith('yabgp.message.attribute') and '.nlri' not in fn.module.name
+        and '.linkstate' not in fn.module.name and '.sr' not in fn.module.name) or fn.module.name == 'yabgp.message.update')
 
     # ---------------------------------------------------------------- R06.f
     from .c10 import shared_state_writes
